@@ -233,6 +233,21 @@ def drive(ctx, strategy, body, max_examples, salt=0, max_rounds=4, label=""):
         max_examples = max(50, max_examples // 2)
 
 
+def guarded(ctx, fn, *args, label="case"):
+    """run fn(*args) under the per-case limit (for loops that do not go through drive());
+    -> (result, timed_out).  A case over the limit is counted and makes a quiet run inconclusive, never a violation."""
+    signal.signal(signal.SIGALRM, _alarm)
+    signal.alarm(case_limit(ctx))
+    try:
+        return fn(*args), False
+    except CaseTimeout:
+        ctx.stats.extra["cases_timed_out"] = ctx.stats.extra.get("cases_timed_out", 0) + 1
+        ctx.stats.notes.append(f"a {label} exceeded the per-case limit of {case_limit(ctx)} s (inconclusive)")
+        return None, True
+    finally:
+        signal.alarm(0)
+
+
 def exc_name(e):
     return type(e).__name__
 
